@@ -794,7 +794,8 @@ void violation(const std::string& sig, const std::string& msg) {
     if (g_replay) { g_replay_viol++; printf("  VIOLATION-DETAIL signature=%s :: %s\n", sig.c_str(), msg.c_str()); return; }
     Slot& s = slots[g_wid]; s.nviol++;
     std::string path;
-    if (g_viol_files < 12) {
+    static std::map<std::string, int> per_sig;   // a few replay files per signature, so that a frequent (e.g. known) signature cannot use up the files
+    if (per_sig[sig] < 3 && per_sig.size() <= 40 && ++per_sig[sig]) {
         char b[512]; snprintf(b, sizeof b, "%s/replay/%s-%s-w%d-%d.txt", cfg.outdir.c_str(), cfg.prop.c_str(), g_stage.c_str(), g_wid, g_viol_files++);
         path = b; write_replay(path, *g_cur, sig, msg);
     }
@@ -839,7 +840,7 @@ std::string crash_signature(const std::string& errtxt, int status, bool hang) {
 }
 
 void worker_body(Engine& e, const std::string& stage, int wid, long long resume_after) {
-    g_wid = wid; g_nw = cfg.jobs; g_resume_after = resume_after; g_idx = 0; g_stop = false; g_viol_files = (int)(slots[wid].nviol > 12 ? 12 : slots[wid].nviol);
+    g_wid = wid; g_nw = cfg.jobs; g_resume_after = resume_after; g_idx = 0; g_stop = false; g_viol_files = (int)slots[wid].nviol;
     char f[512]; snprintf(f, sizeof f, "%s/w%d.err", cfg.outdir.c_str(), wid);
     int fd = open(f, O_WRONLY | O_CREAT | O_TRUNC, 0644); if (fd >= 0) { dup2(fd, 2); close(fd); }
     e.worker_init();
